@@ -361,6 +361,8 @@ class RangeDomain:
     def call(self, ex, fk, args, term, fr):
         n = fk.name
         d = fk.d
+        if fr is not None:
+            self.__dict__.setdefault("entered", set()).add(fr.body.path)
         ih = inherits_overflow_checks(term.get("fn") or {})
         if ih and fr is not None:
             r = self._inherit_call(ex, fk, args, term, fr, ih)
@@ -1130,11 +1132,14 @@ def interval_unreachable(F, b, bb):
             int_fns = set(int_helper_paths(F)) | int_param_functions(F)      # callees with integer parameters are analysed in context
             run_top(F, dom, F.bodies[root], lambda d: d in int_fns, max_steps=40000, max_paths=400)      # a reachability question: small budget
             if root in dom.completed:
-                cache[key] = set(dom.panics)
+                cache[key] = (set(dom.panics), set(getattr(dom, "entered", ())) | {root})
         except Exception:
             cache[key] = None
-    reached = cache[key]
-    return reached is not None and (p, bb) not in reached
+    if cache[key] is None:
+        return False
+    reached, entered = cache[key]
+    # (a closure handed to a library adaptor is not run by its parent's execution: "never reached" would prove nothing)
+    return p in entered and (p, bb) not in reached
 
 
 def debug_assert_unreachable(repo, b, bb):
